@@ -165,7 +165,9 @@ def build(w):
 
 
 MANIFEST_ENTRY = {
-    'text': 'Proof of the bookkeeping each call performs (sequential; loop invariants for the drain and wake-up loops): '
+    'text': 'PARTIAL, and not the property as stated: "no lost wake-ups" is a statement about interleavings at semaphore-operation '
+            'granularity, which this family of technique does not decide; what is proved is the arithmetic each call performs.  '
+            'Proof of the bookkeeping each call performs (sequential; loop invariants for the drain and wake-up loops): '
             'Condition.wait announces itself exactly once (sleeping_count) and acknowledges exactly once (woken_count) on every '
             'way out, releases and re-acquires the lock as deep as it was held, and a wait without timeout returns True; '
             'notify() first writes off the waiters that timed out since the last notification, then hands out exactly one '
